@@ -98,6 +98,28 @@ func add(a, b int) int { return a + b }
 
 func sum(xs ...int) int { return len(xs) }
 
+func sel(ch chan int, x int) {
+	select {
+	case v := <-ch:
+		x++
+		x--
+		probe(v)
+		probe(x)
+	case ch <- x:
+		probe(11)
+		probe(13)
+		return
+	default:
+		probe(1)
+		probe(2)
+	}
+	switch x {
+	case 3:
+		probe(21)
+		probe(23)
+	}
+}
+
 func sums(x int) (int, int, int, int) {
 	_ = sum(1, 1, 2, 2)
 	_ = sum(2, 2, 1, 1)
@@ -356,6 +378,12 @@ func ruleSetComposition(c *Ctx, suite, stream string, pool []poolRule, extraTarg
 			}
 			files = append(files, hx.RulesFile(decls+sb.String()))
 			hist = append(hist, fileRules)
+		}
+		if rng.Intn(4) == 0 {
+			// a last file without any syntax rule (comment rules only): the rules loaded before it keep reporting
+			files = append(files, hx.RulesFile(decls+fmt.Sprintf("func gc%d(m dsl.Matcher) {\n\tm.MatchComment(`never-matches-anything-zzz`).Report(`c`)\n}\n", s)))
+			hist = append(hist, nil)
+			res.Dist("e2e:last-file-has-comment-rules-only")
 		}
 		// model rule ids must be unique per occurrence: occurrence index; root tag from the pool
 		occ := 0
